@@ -115,6 +115,26 @@ def chooseRep (parts : List (List Entry)) : Option PostRep :=
     let (lastDoc, lastFreq, lastNorm) := match last with
       | none => (0, 0, 0)
       | some l => (l.doc, l.freq, l.norm)
+    -- the 1-hit form keeps 31 norm bits and is recognised by the reader through those bits being
+    -- non-zero (`normBits1Hit != 0`): norm bits that are zero or need the 32nd bit take the general
+    -- form (the repair of defect D14; `chooseRepD14` below is the choice as it was)
+    if e.locs.isEmpty ∧ Gen.under32Bits e.doc = true ∧ e.doc = lastDoc ∧ lastFreq = 1 ∧
+        lastNorm ≠ 0 ∧ Gen.under32Bits lastNorm = true then
+      let dn := Gen.FSTValDecode1Hit (Gen.FSTValEncode1Hit e.doc lastNorm)
+      some (.oneHit dn.1 dn.2)
+    else some (.general [e])
+  | es => some (.general es)
+
+/-- `use1HitEncoding` as it was before the repair of D14: no condition on the norm bits. -/
+def chooseRepD14 (parts : List (List Entry)) : Option PostRep :=
+  let es := parts.flatMap id
+  match es with
+  | [] => none
+  | [e] =>
+    let last := (parts.getLast?.getD []).getLast?
+    let (lastDoc, lastFreq, lastNorm) := match last with
+      | none => (0, 0, 0)
+      | some l => (l.doc, l.freq, l.norm)
     if e.locs.isEmpty ∧ Gen.under32Bits e.doc = true ∧ e.doc = lastDoc ∧ lastFreq = 1 then
       let dn := Gen.FSTValDecode1Hit (Gen.FSTValEncode1Hit e.doc lastNorm)
       some (.oneHit dn.1 dn.2)
